@@ -140,6 +140,7 @@ func propC11(t *rapid.T) {
 		p, _ = sgen.GenPresentation(t, f.Tables())
 	}
 	c := CaseStatic{Feed: f, Pres: p}
+	c.Env = genEnv(t)
 	classes, nt := c11Classify(f)
 	c11Rec.Eval(classes...)
 	if info.MovedDates > 0 {
